@@ -448,7 +448,14 @@ class Tracer:
 
     def call(self, n, env, mod, fr):
         f = dotted(n.func)
-        args = [self.ev(a, env, mod, fr) for a in n.args if not isinstance(a, ast.Starred)]
+        args = []
+        for a in n.args:
+            if isinstance(a, ast.Starred):
+                sv = self.ev(a.value, env, mod, fr)      # f(*t) with t a tuple built in this function: its elements are the arguments
+                if isinstance(sv, _Pair):
+                    args.extend(sv.items)
+                continue
+            args.append(self.ev(a, env, mod, fr))
         kws = {k.arg: self.ev(k.value, env, mod, fr) for k in n.keywords if k.arg}
         allsyms = set()
         for a in list(args) + list(kws.values()):
@@ -469,6 +476,13 @@ class Tracer:
         if f in ('json.dump',) and len(args) >= 2:
             self.emit('dump', args[0], args[1].path if isinstance(args[1], FileH) else args[1], n)
             return Const(None)
+        if f == 'json.dumps' and args:
+            return _Dumps(args[0])
+        if isinstance(n.func, ast.Attribute) and n.func.attr == 'write' and len(args) == 1 and isinstance(args[0], _Dumps):
+            fh = self.ev(n.func.value, env, mod, fr)          # fh.write(json.dumps(x)) is json.dump(x, fh)
+            if isinstance(fh, FileH):
+                self.emit('dump', args[0].value, fh.path, n)
+                return Const(None)
         if f in ('os.makedirs', 'os.mkdir') and args:
             self.emit('mkdir', args[0], n)
             return Const(None)
@@ -502,6 +516,16 @@ class Tracer:
             b = self.ev(n.func.value, env, mod, fr)
             return Ex('%s.%s(%s)' % (b.txt(), n.func.attr, ', '.join(a.txt() for a in args)), b.syms | allsyms)
         return Ex('%s(%s)' % (f or norm(n.func), ', '.join(a.txt() for a in args)), allsyms)
+
+
+class _Dumps(V):
+    """json.dumps(value): the serialised text of value"""
+    def __init__(self, value):
+        self.value = value
+        self.syms = value.syms
+
+    def txt(self):
+        return 'dumps(%s)' % self.value.txt()
 
 
 class _Pair(V):
